@@ -289,6 +289,10 @@ package lnwallet
 //@          arg(1).removeCommitHeights.Remote == pendingRemoteCommit.height)
 //@   site call markHtlcModified: assert arg(0) == lc.updateLogs.Local && arg(1) == retn(remoteLogUpdateToPayDesc, 0).ParentIndex
 //@   site call remoteLogUpdateToPayDesc: assert arg(2) == lc.updateLogs.Local && arg(3) == localCommitmentHeight
+//@   // every stored update is looked at: each iteration converts the update in hand, and every one that is not an add goes into the remote log
+//@   loop 0 step called(remoteLogUpdateToPayDesc) && retn(remoteLogUpdateToPayDesc, 1) == nil
+//@   site call remoteLogUpdateToPayDesc as update-in-hand: assert arg(1) == addr(logUpdate) && 0 <= rangeindex + 1 && rangeindex + 1 < len(unsignedAckedUpdates) &&
+//@        logUpdate == unsignedAckedUpdates[rangeindex + 1]
 //@
 //@ func (lc *LightningChannel) restorePeerLocalUpdates
 //@   props C02 C03
@@ -299,6 +303,9 @@ package lnwallet
 //@   site call markHtlcModified: assert arg(0) == lc.updateLogs.Remote && arg(1) == retn(localLogUpdateToPayDesc, 0).ParentIndex &&
 //@        retn(localLogUpdateToPayDesc, 0).EntryType != FeeUpdate
 //@   site call localLogUpdateToPayDesc: assert arg(2) == lc.updateLogs.Remote && arg(3) == remoteCommitmentHeight
+//@   // every stored update is restored: each iteration converts the update in hand and puts it into the local log
+//@   loop 0 step called(localLogUpdateToPayDesc) && retn(localLogUpdateToPayDesc, 1) == nil && called(restoreUpdate)
+//@   site call localLogUpdateToPayDesc as update-in-hand: assert arg(1) == addr(logUpdate) && 0 <= rangeindex + 1 && rangeindex + 1 < len(updates) && logUpdate == updates[rangeindex + 1]
 //@
 //@ func DeriveCommitmentKeys
 //@   props C04
